@@ -88,7 +88,7 @@ def fmtSingle (sn r2 t : Str) (nonneg : Bool) : Str :=
 inductive PyNum where
   | ok (v : Int)
   | err            -- ValueError
-  | gray           -- outside the modelled fragment (underscores, non-ASCII, control characters)
+  | gray           -- (no longer produced: as repaired, READ / INPUT refuse underscores, non-ASCII and control characters)
   deriving Repr, DecidableEq
 
 def isPyWs (c : Char) : Bool :=
@@ -103,9 +103,10 @@ def digitsVal (s : Str) : Nat := Nat.ofDigitChars 10 s 0
 
 def isGrayChar (c : Char) : Bool := c = '_' || c.toNat ≥ 127 || c.toNat < 32
 
+/-- `parse_int` (as repaired: Python's int() also took '1_000' and digits of other scripts) -/
 def pyInt (s : Str) : PyNum :=
   let t := strip s
-  if t.any isGrayChar then .gray else
+  if t.any isGrayChar then .err else
   match t with
   | '+' :: ds => if allDigits ds then .ok (digitsVal ds) else .err
   | '-' :: ds => if allDigits ds then .ok (-(digitsVal ds : Int)) else .err
@@ -172,7 +173,8 @@ def scanNumLit (s : Str) : Option (Str × Option Char) :=
 inductive ValRes where
   | zero                     -- ParseException: VAL gives 0
   | int (v : Int)            -- integral token in LONG range: VAL gives float(v)
-  | flt (tok : Str)          -- VAL gives float(tok) (tok with d replaced by e, lower-cased)
+  | flt (tok : Str)          -- VAL gives float(tok) (tok with d replaced by e, lower-cased); a numeral beyond every
+                             -- DOUBLE is a numeric overflow (as repaired: no cell holds an infinity)
   | gray                     -- &H / &O literals, type characters: not modelled
   deriving Repr, DecidableEq
 
@@ -208,22 +210,20 @@ def valParse (s : Str) : ValRes :=
 inductive FloatSyn where
   | ok      -- a decimal numeral: float() succeeds (value external)
   | bad     -- ValueError
-  | gray    -- inf / nan / underscores / non-ASCII: outside the modelled fragment
+  | gray    -- (no longer produced: as repaired, inf / nan / underscores / non-ASCII are refused)
   deriving Repr, DecidableEq
 
 def floatSyntax (s : Str) : FloatSyn :=
   let t := strip s
-  if t.any isGrayChar then .gray else
+  if t.any isGrayChar then .bad else
   let r := (splitSign t).2
-  let lw := r.map lower
-  if lw = "inf".toList || lw = "infinity".toList || lw = "nan".toList then .gray else
   match scanMantissa r with
   | none => .bad
   | some (_, r2) =>
     match r2 with
     | [] => .ok
     | c :: _ =>
-      if c = 'e' || c = 'E' then
+      if c = 'e' || c = 'E' || c = 'd' || c = 'D' then
         if (scanExp r2).1.isEmpty then .bad else if (scanExp r2).2.isEmpty then .ok else .bad
       else .bad
 
